@@ -49,11 +49,12 @@ fn b_back(stack: &[bool], supplied_like: &[i64]) -> Vec<i64> {
     stack.iter().zip(supplied_like.iter().chain(std::iter::repeat(&-1))).map(|(b, want)| if *b == b_of(*want) { *want } else { -1 }).collect()
 }
 
-pub fn observe_push(r: Result<PushState, (usize, StackError)>, expect_b: &[i64]) -> Value {
+pub fn observe_push(r: Result<Option<PushState>, (usize, StackError)>, expect_b: &[i64]) -> Value {
     match r {
+        Ok(None) => json!({"status": "no_overflow"}),
         Err((at, StackError::Overflow { .. })) => json!({"status": "overflow", "at": at}),
         Err((at, e)) => json!({"status": "other_error", "at": at, "err": e.to_string()}),
-        Ok(st) => {
+        Ok(Some(st)) => {
             let ints = top_first(st.stack::<i64>());
             let bools = top_first(st.stack::<bool>());
             // inputs: perform the variable on a copy and see what appears where
@@ -87,11 +88,12 @@ pub fn observe_push(r: Result<PushState, (usize, StackError)>, expect_b: &[i64])
     }
 }
 
-pub fn observe_alt(r: Result<AltState, (usize, StackError)>) -> Value {
+pub fn observe_alt(r: Result<Option<AltState>, (usize, StackError)>) -> Value {
     match r {
+        Ok(None) => json!({"status": "no_overflow"}),
         Err((at, StackError::Overflow { .. })) => json!({"status": "overflow", "at": at}),
         Err((at, e)) => json!({"status": "other_error", "at": at, "err": e.to_string()}),
-        Ok(st) => {
+        Ok(Some(st)) => {
             // through the generated accessors ...
             let a: Vec<i64> = top_first(st.stack::<Wrapped>()).iter().map(|w| w.0).collect();
             let b: Vec<i64> = top_first(st.stack::<i64>());
